@@ -26,7 +26,7 @@ import (
 func init() {
 	Registry["C19"] = RunC19
 	Metas["C19"] = Meta{
-		Rule:           "episode = connection history of 1..5 requests (keep-alive/close/pipelined) with an outcome per request from {ok, handler panic + recovery, malformed header, body too large, peer FIN mid-header, peer FIN mid-body, peer RST mid-body, write error while responding, hijack, Connection: close} and an end of connection from {peer FIN idle, peer RST idle, idle timeout on the fake clock, server close, return-to-transport (IdleTimeout==0 transporter, Serve re-entered per request)}; trace levels Disabled/Base/Detailed; distinct positive delays between stages. Oracle: two-state automaton over the recorded Start/Finish calls + per-pair stage order. Non-trivial: >= 2 requests or a fault fired; distinct = abstract signature (outcome sequence, end kind, level, mode).",
+		Rule:           "episode = connection history of 1..5 requests (keep-alive/close/pipelined) with an outcome per request from {ok, handler panic + recovery, malformed header, body too large, peer FIN mid-header, peer FIN mid-body, peer RST mid-body, write error while responding, hijack, Connection: close} and an end of connection from {peer FIN idle, peer RST idle, idle timeout on the fake clock, server close, return-to-transport (IdleTimeout==0 transporter, Serve re-entered per request)}; trace levels Disabled/Base/Detailed; distinct positive delays between stages. Oracle: two-state automaton over the recorded Start/Finish calls + per-pair stage order. Non-trivial: >= 2 requests or a fault fired; distinct = abstract signature (outcome sequence, end kind, level, mode). Added later: Expect: 100-continue accepted / rejected by the ContinueHandler; zero-request histories; a second connection served afterwards on the recycled context (the error carried by Finish is judged); two connections served at the same time with every stage record a scheduling point and the second accept placed uniformly over the history of the first.",
 		Real:           []string{"http1.Server.Serve (DoStart/DoFinish/eventStack)", "internal/stats.Controller", "traceinfo.HTTPStats", "recovery middleware", "route.Engine", "standard.Conn"},
 		Stub:           []string{"TCP (SimConn)", "peer (scripted actor)", "transporter (stub; for return-to-transport mode the harness re-enters Engine.Serve when data arrives, as netpoll does)", "clock (synctest)"},
 		Assumptions:    []string{"a connection that delivers no byte at all may produce one Start/Finish pair (the server starts tracing before the first read); this is not counted against the per-request rule"},
